@@ -323,6 +323,13 @@ def clause_cases():
                     m["Catch"] = [{"ErrorEquals": ["States.ALL"], "ResultPath": "$.err", "Next": "H"}]
                 out.append(_case({"StartAt": "M", "States": {"M": m, "H": P(Result="handled", ResultPath="$.h", End=True)}},
                                  {"id": 7, "job": {"items": [1, 2, 3], "tag": "t"}}, {"echo": ["echo"], "bad": ["fail", "Boom"]}))
+    # Choice on instants written with UTC offsets (the rule compares instants, not texts)
+    for ts in ("2024-03-10T12:00:00-03:30", "2024-03-10T12:00:00-00:30", "2024-03-10T21:00:00+05:30", "2024-03-10T15:20:00Z", "2024-03-10T06:00:00-09:30", "2024-03-10T15:10:00.5Z"):
+        for op in ("TimestampLessThan", "TimestampGreaterThanEquals", "TimestampEquals"):
+            out.append(_case({"StartAt": "C", "States": {"C": {"Type": "Choice", "Choices": [{"Variable": "$.ts", op: "2024-03-10T15:15:00Z", "Next": "X"},
+                                                                                             {"Variable": "$.ts", "TimestampGreaterThanPath": "$.other", "Next": "Y"}], "Default": "Z"},
+                                                         "X": P(Result="X", End=True), "Y": P(Result="Y", End=True), "Z": P(Result="Z", End=True)}},
+                             {"ts": ts, "other": "2024-03-10T17:45:00+02:30"}))
     # a Retrier on the fan-out state itself, with and without batches: the retry budget is the state's, whichever batch the failing
     # item is in, and every retry runs all items again
     for n_items in (2, 3, 4):
